@@ -115,12 +115,10 @@ def walk(stmts, env: dict, out: Outcome, acts: list[str] | None = None, follow=N
         if isinstance(s, (ast.Assign, ast.AugAssign, ast.AnnAssign)):
             acts.append(norm(s))
             tgts = s.targets if isinstance(s, ast.Assign) else [s.target]
+            val = ev(s.value, env) if isinstance(s, ast.Assign) else UNKNOWN  # a boolean local takes the value of its definition
             for t in tgts:
                 env.pop(norm(t), None)
-                if isinstance(s, ast.Assign) and isinstance(s.value, ast.Constant):
-                    env[norm(t)] = s.value.value
-                else:
-                    env[norm(t)] = UNKNOWN
+                env[norm(t)] = val
         elif isinstance(s, ast.Expr):
             acts.append(norm(s))
         elif isinstance(s, (ast.For, ast.While, ast.With, ast.Try, ast.Match)):
